@@ -223,6 +223,17 @@ def _r06_4(res, P, cfgname):
     for name in ("to_f32_nontrivial", "to_f64_nontrivial"):
         f = next((g for g in P.fns("dashu_int") if g.get("name") == name), None)
         if f is None:
+            # the helper may have been inlined into its caller: the function that encodes into this float type
+            # from a shifted big integer
+            ty = name[3:6]
+            for g in P.fns("dashu_int"):
+                if not g.get("mir") or "convert" not in g["p"]:
+                    continue
+                cps = [(fr.get("rp") or fr["p"]) for bb, t, fr in mir.iter_calls(g["mir"]) if fr]
+                if any(c.endswith("::are_low_bits_nonzero") for c in cps) and any(c == "<%s as dashu_base::bit::FloatEncoding>::encode" % ty for c in cps):
+                    f = g
+                    break
+        if f is None:
             res.anchor("R06.4", cfgname, "fn " + name)
             continue
         S = sym.Sym(f)
